@@ -144,7 +144,10 @@ CountNL(b) == Cardinality({k \in 1..Len(b) : b[k] = cNL})
 (* scanner state: start condition, position, scratch buffer, line, tokens,  *)
 (* bytes echoed to stdout, error flag                                      *)
 LexInit(line) == [st |-> "INITIAL", i |-> 1, buf |-> <<>>, line |-> line, toks |-> <<>>,
-                  echo |-> 0, err |-> FALSE, unspec |-> FALSE, done |-> FALSE]
+                  echo |-> 0, err |-> FALSE, unspec |-> FALSE, done |-> FALSE, rep |-> TRUE]
+(* a scan that starts in start condition st; rep = FALSE models the pinned, unrepaired  *)
+(* scanner (kept only as a witness for C08: it leaves its start condition behind)      *)
+LexInitAt(st, rep) == [LexInit(1) EXCEPT !.st = st, !.rep = rep]
 
 Tok(k, v, line) == [k |-> k, v |-> v, line |-> line]
 
@@ -154,7 +157,10 @@ LexStep(s, L) ==
      IF L.st = "INITIAL" THEN [L EXCEPT !.done = TRUE, !.toks = Append(@, Tok("eof", <<>>, L.line))]
      (* an unterminated single-quoted string is rejected (C03); for a double-quoted    *)
      (* string or a comment the statements only require that nothing is left behind    *)
-     ELSE [L EXCEPT !.done = TRUE, !.err = TRUE, !.unspec = (L.st # "sq_str"), !.st = "INITIAL"]
+     ELSE IF L.rep THEN [L EXCEPT !.done = TRUE, !.err = TRUE, !.unspec = (L.st # "sq_str"), !.st = "INITIAL"]
+     (* unrepaired: only '...' is reported; the start condition is left as it is *)
+     ELSE IF L.st = "sq_str" THEN [L EXCEPT !.done = TRUE, !.err = TRUE]
+     ELSE [L EXCEPT !.done = TRUE, !.toks = Append(@, Tok("eof", <<>>, L.line))]
   ELSE
   LET rules == CASE L.st = "INITIAL" -> RulesInitial(s, L.i)
                  [] L.st = "comment" -> RulesComment(s, L.i)
@@ -185,9 +191,9 @@ LexStep(s, L) ==
        [] p.r = "dqnl"   -> [N EXCEPT !.buf = Append(@, cNL), !.line = @ + 1]
        [] p.r = "dqcont" -> [N EXCEPT !.line = @ + 1]
        [] p.r = "oct"    -> LET v == OctVal(s, L.i + 1, p.n - 1)
-                            IN IF v > 255 THEN [N EXCEPT !.err = TRUE, !.done = TRUE]
+                            IN IF v > 255 THEN [N EXCEPT !.err = TRUE, !.done = TRUE, !.st = IF L.rep THEN "INITIAL" ELSE @]
                                ELSE [N EXCEPT !.buf = Append(@, v)]
-       [] p.r = "baddig" -> [N EXCEPT !.err = TRUE, !.done = TRUE]
+       [] p.r = "baddig" -> [N EXCEPT !.err = TRUE, !.done = TRUE, !.st = IF L.rep THEN "INITIAL" ELSE @]
        [] p.r = "hex"    -> [N EXCEPT !.buf = Append(@, HexVal(s, L.i + 2, p.n - 2))]
        [] p.r = "escl"   -> [N EXCEPT !.buf = Append(@, EscLetterVal(s[L.i + 1]))]
        [] p.r = "escany" -> [N EXCEPT !.buf = Append(@, s[L.i + 1])]
